@@ -451,7 +451,7 @@ Definition footer_rule_ok (z : szone) : bool :=
 
 Definition wf_ast (h : header) (a : ast) : bool :=
   let z := szone_of a in
-  (1 <=? h_typecnt h) && (h_leapcnt h =? 0)
+  (1 <=? h_typecnt h) && (h_typecnt h <=? 256) && (h_leapcnt h =? 0)
   && ((h_isstdcnt h =? 0) || (h_isstdcnt h =? h_typecnt h))
   && ((h_isutcnt h =? 0) || (h_isutcnt h =? h_typecnt h))
   && strictly_increasing (a_times a)
@@ -460,4 +460,18 @@ Definition wf_ast (h : header) (a : ast) : bool :=
   && forallb (fun i => (0 <=? i) && (i <? h_typecnt h)) (a_idx a)
   && forallb (fun ty => let '(o, _, ai) := ty in (-86400 <? o) && (o <? 86400) && (0 <=? ai) && (ai <? h_charcnt h)) (a_types a)
   && footer_consistent z && footer_rule_ok z
+  (* every abbreviation is NUL-terminated inside the table (RFC 8536) *)
+  && (match rev (a_abbr a) with c :: _ => c =? 0 | [] => false end)
+  (* a first entry at -2^59 (pre-2018 zic "big bang") is a sentinel, not a
+     change: its type must be equivalent to the default type *)
+  && (match a_times a, a_idx a with
+      | t0 :: _, i0 :: _ =>
+          if t0 =? big_bang then
+            match type_info a i0, type_info a (sz_default z) with
+            | Some x, Some y => tinfo_eqb x y
+            | _, _ => false
+            end
+          else true
+      | _, _ => true
+      end)
   && gaps_ok z (a_times a).
